@@ -51,6 +51,9 @@ int spaceship(Q1 a, Q2 b) { auto c = (a <=> b); return c < 0 ? -1 : (c > 0 ? 1 :
 template <typename U1, typename R1, typename U2, typename R2, typename CU>
 __attribute__((noinline)) void run_int(long id, const char *desc, u64 k1, u64 k2, u64 nrandom, u64 seed) {
     using C = std::common_type_t<R1, R2>;
+    // the raw +, -, % on two values of the common rep happen in its promoted type (int for 8/16-bit reps): that is the
+    // type in which "the exact sum expressed in the common unit" must be representable, and in which it is read back
+    using P = decltype(C{} + C{});
     g_st.clear();
     vf::g_inst = id;
     static std::vector<R1> va;
@@ -103,12 +106,12 @@ __attribute__((noinline)) void run_int(long id, const char *desc, u64 k1, u64 k2
 #if VF_HAS_SPACESHIP
         { int s = 9; VF_PHASE(vf::PH_OPERATION) { s = spaceship(qa, qb); } int w = A < B ? -1 : (A > B ? 1 : 0); if (s != w) mismatch("<=>", a, b, s, w); }
 #endif
-        if (fits<C>(A + B)) { C r{}; VF_PHASE(vf::PH_OPERATION) { r = (qa + qb).coerce_in(CU{}); } if ((i128)r != A + B) mismatch("+", a, b, r, (C)(A + B)); }
-        if (fits<C>(A - B)) { C r{}; VF_PHASE(vf::PH_OPERATION) { r = (qa - qb).coerce_in(CU{}); } if ((i128)r != A - B) mismatch("-", a, b, r, (C)(A - B)); }
-        if (B != 0 && !(A == (i128)std::numeric_limits<C>::lowest() && B == -1)) {
-            C r{}; VF_PHASE(vf::PH_OPERATION) { r = (qa % qb).coerce_in(CU{}); }
+        if (fits<P>(A + B)) { i128 r = 0; VF_PHASE(vf::PH_OPERATION) { r = (i128)(qa + qb).coerce_in(CU{}); } if (r != A + B) mismatch("+", a, b, (long long)r, (P)(A + B)); }
+        if (fits<P>(A - B)) { i128 r = 0; VF_PHASE(vf::PH_OPERATION) { r = (i128)(qa - qb).coerce_in(CU{}); } if (r != A - B) mismatch("-", a, b, (long long)r, (P)(A - B)); }
+        if (B != 0 && !(A == (i128)std::numeric_limits<P>::lowest() && B == -1)) {
+            i128 r = 0; VF_PHASE(vf::PH_OPERATION) { r = (i128)(qa % qb).coerce_in(CU{}); }
             i128 w = A % B;  // C++ truncated-division remainder
-            if ((i128)r != w) mismatch("%", a, b, r, (C)w);
+            if (r != w) mismatch("%", a, b, (long long)r, (P)w);
         }
     });
     printf("{\"ev\":\"mixed\",\"id\":%ld,\"desc\":\"%s\",\"evals\":%llu,\"in_domain\":%llu,\"out_of_domain\":%llu,\"mm\":%llu,\"spaceship\":%d,\"wit\":[", id, desc,
